@@ -18,6 +18,10 @@ def main():
     refsel.selftest()
     env = dict(os.environ, PYTHONPATH=os.pathsep.join([os.environ.get('VF_REPO', '/repo'), VERIF]))
     subprocess.check_call([sys.executable, '-c', 'import adsg_core.optimization.graph_processor'], env=env)
+    # optional second engine of the thorough tier (atheris wheel from the offline wheelhouse, never fetched)
+    subprocess.call([sys.executable, '-m', 'pip', 'install', '--quiet', '--no-index', '--find-links',
+                     '/opt/veriftools/wheels', '--target', os.path.join(VERIF, '.deps'), 'atheris'],
+                    stdout=subprocess.DEVNULL, stderr=subprocess.DEVNULL)
     for d in ('evidence', 'replays'):
         os.makedirs(os.path.join(VERIF, d), exist_ok=True)
     print('vf setup ok')
